@@ -155,7 +155,7 @@ static void apply(const JV& m, mf::File& f, int n, std::vector<unsigned char>* b
 	if (k == "setcard" || k == "addcard") {
 		std::string key = m["key"].str(), val = m["val"].str(); char kind = val[0] == '\'' ? 's' : 'i'; if (kind == 's') val = val.substr(1, val.size() - 2);
 		bool done = false; for (auto& c : f.hdus[0].cards) if (c.key == key) { c.val = val; c.kind = kind; done = true; }
-		if (!done) f.hdus[0].cards.insert(f.hdus[0].cards.begin() + 1, mf::Card{key, val, kind});
+		if (!done) { auto& cs = f.hdus[0].cards; cs.insert(cs.begin() + std::min<size_t>(1, cs.size()), mf::Card{key, val, kind}); }
 	} else if (k == "delcard") { auto& c = f.hdus[0].cards; std::string key = m["key"].str(); c.erase(std::remove_if(c.begin(), c.end(), [&](const mf::Card& x) { return x.key == key; }), c.end()); }
 	else if (k == "setaxis") { mf::HDU* h = hdu(m["hdu"].integer()); long a = m["axis"].integer(); if (h && a >= 1 && a <= (long)h->axes.size()) { h->axes[a - 1] = m["val"].integer(); size_t nel = 1; for (long x : h->axes) nel *= (size_t)x; if (nel < 4000000) h->data.resize(nel, 0x3ff0000000000000ull >> (h->bitpix == -32 ? 32 : 0)); } }
 	else if (k == "setnaxis") { mf::HDU* h = hdu(m["hdu"].integer()); if (h) { h->axes.resize(m["val"].integer(), 2); size_t nel = h->axes.empty() ? 0 : 1; for (long x : h->axes) nel *= (size_t)x; h->data.resize(nel, 0); } }
@@ -202,8 +202,10 @@ static int damaged_mode(const char* cases, uint64_t seed, const char* outp) {
 		if (garbage) { bytes.assign(2880 * 2, 0); for (auto& b : bytes) b = (unsigned char)rng.below(256); }
 		bool blockmultiple = bytes.size() % 2880 == 0 && !bytes.empty();
 		std::string path = dir + "/d.fits"; { std::ofstream o(path, std::ios::binary); o.write((char*)bytes.data(), bytes.size()); }
+		long caseno = nev;
 		for (int how = 0; how < 4; how++) {
-			if ((how == 1 || how == 3) && !blockmultiple) continue;   // memory readers: only whole-block buffers (see known finding on cfitsio's mem_read)
+			if ((how == 1 || how == 3) && !blockmultiple) continue;
+			if (how >= 2 && (caseno / 3) % 3 != 0) continue;                 // the C wrappers share the C++ reader: every third case   // memory readers: only whole-block buffers (see known finding on cfitsio's mem_read)
 			std::string detail;
 			std::string v = in_child([&]() -> std::string {
 				Table* t = nullptr; bool ok = true; ::splinetable ct; ct.data = nullptr; std::vector<unsigned char> copy = bytes;
